@@ -15,6 +15,17 @@ default --gc-sections):
              global symbol, against a local symbol, or against the section symbol + offset
              (edges that cross objects are always against the named global). Relocation type is
              R_X86_64_64 in writable sections and R_X86_64_PC32 elsewhere.
+  reloc kind (REL_SUBFAMILIES, root kind entry, static non-PIE): the relocation TYPE of an edge is an
+             axis of its own: every edge is one relocation of the chosen type against the named
+             global or the section symbol: R_X86_64_{NONE,64,PC32,PLT32,GOTPCREL,GOTPCRELX,
+             REX_GOTPCRELX,32S,32,GOTOFF64,TLSLD,DTPOFF32,GOTTPOFF,TPOFF32} and R_AARCH64_{NONE,ABS64,
+             PREL32,ADR_PREL_PG_HI21,ADD_ABS_LO12_NC,LDST64_ABS_LO12_NC,CALL26,ADR_GOT_PAGE,
+             LD64_GOT_LO12_NC,TLSLD_ADR_PAGE21,TLSIE_ADR_GOTTPREL_PAGE21,TLSLE_ADD_TPREL_HI12} (TLS kinds
+             target .tdata sections). "Valueless" kinds - those for which wild's
+             layout::resolution_flags() is empty (NONE, TLSLD, AArch64 *_ABS_LO12_NC) - are crossed
+             with all graphs in both tiers. A (kind, symbol kind) pair is only judged when GNU ld and
+             ld.lld --gc-sections both keep the target on a calibration graph (calibrate(); AArch64:
+             ld.lld only); excluded pairs are listed in the evidence.
   root kind  what makes S0 a root: entry `_start`; `-e ent`; `-u usym`; default-visibility symbol in
              `-shared`; default-visibility symbol in `-pie --export-dynamic` (dynamically linked
              against a shared object); `KEEP(*(.keepme))` in a linker script; SHF_GNU_RETAIN;
@@ -213,6 +224,9 @@ REL_KINDS = {
 }
 VALUELESS = [k for k, v in REL_KINDS.items() if v[7]]
 ORDINARY = [k for k, v in REL_KINDS.items() if not v[7]]
+# 64 / PC32 / ABS64 / PREL32 are what the root-kind families use already
+QUICK_ORDINARY = ["PLT32", "GOTPCREL", "REX_GOTPCRELX", "32S", "TPOFF32", "A64_CALL26",
+                  "A64_ADR_GOT_PAGE"]
 SLOT = 16
 SHF_TLS, STT_TLS = 0x400, 6
 
@@ -505,18 +519,43 @@ SUBFAMILIES = {
 }
 
 
-def members(tier):
+REL_SUBFAMILIES = {
+    # name: (graph set, relocation kinds, symbol kinds); root kind entry; each enumerated in full
+    "quick": [
+        ("g3 x valueless relocation kinds x {global,section} x entry", "g3", VALUELESS,
+         ["global", "section"]),
+        ("g3 x representative ordinary relocation kinds x global x entry", "g3", QUICK_ORDINARY,
+         ["global"]),
+    ],
+    "thorough": [
+        ("g3 x every relocation kind x {global,section} x entry", "g3", list(REL_KINDS),
+         ["global", "section"]),
+        ("g4 loop-free x valueless relocation kinds x {global,section} x entry", "g4", VALUELESS,
+         ["global", "section"]),
+    ],
+}
+
+
+def members(tier, cal=None):
     g4 = list(graphs4()) if tier == "thorough" else []
     sets = {"g3": list(graphs3()), "g4": g4[0::2], "g4loops": g4[1::2]}
     out = []
     for _name, gset, eks, rks, more in SUBFAMILIES[tier]:
         for (n, edges), ek, rk in itertools.product(sets[gset], eks, rks):
             out.append({"n": n, "edges": [list(e) for e in edges], "ek": ek, "rk": rk, **more})
+    # relocation-kind axis (root kind entry): only (kind, symbol kind) pairs that passed calibration
+    for name, gset, rels, eks in REL_SUBFAMILIES[tier]:
+        for rel, ek in itertools.product(rels, eks):
+            if cal is not None and cal.get((rel, ek)) is not None:
+                continue
+            for n, edges in sets[gset]:
+                out.append({"n": n, "edges": [list(e) for e in edges], "ek": ek, "rk": "entry",
+                            "rel": rel})
     return out
 
 
 def label(m):
-    more = "".join(f"/{k}={m[k]}" for k in ("order", "arch") if k in m)
+    more = "".join(f"/{k}={m[k]}" for k in ("order", "arch", "rel") if k in m)
     return f"{m['rk']}/{m['ek']}/n={m['n']}{more}/" + ",".join(f"{a}>{b}" for a, b in m["edges"])
 
 
@@ -530,7 +569,8 @@ def run_member(item):
     argv = build(m, d)
     rc, msg = wildrun.server_link([*argv, "-o", "out"], cwd=d)
     if rc != 0:
-        return dict(idx=idx, viol=[(f"link-fails:{m['rk']}:rc={rc}", f"link failed: {msg[-300:]}")],
+        cls = f"rel={m['rel']}" if "rel" in m else m["rk"]
+        return dict(idx=idx, viol=[(f"link-fails:{cls}:rc={rc}", f"link failed: {msg[-300:]}")],
                     stats={}, argv=argv)
     viol, stats = judge(argv, d, os.path.join(d, "out"))
     # One root cause = few keys: when the root section S0 itself is missing, everything behind it is
@@ -538,6 +578,8 @@ def run_member(item):
     # edge kind and the dropped section.
     if any(v[0] == "mark_0" for v in viol):
         viol = [(f"root-dropped:{m['rk']}", t) for mk, sn, t in viol if mk == "mark_0"]
+    elif "rel" in m:
+        viol = [(f"dropped:rel={m['rel']}:{m['ek']}", t) for mk, sn, t in viol]
     else:
         viol = [(f"dropped:{m['rk']}:{m['ek']}:{sn}", t) for mk, sn, t in viol]
     return dict(idx=idx, viol=viol, stats=stats, argv=argv)
@@ -726,12 +768,17 @@ def main():
         return replay(chk)
     dummy_so()
     vlib.assemble(WALKER)
-    ms = members(chk.tier)
+    with vlib.scratch("c05cal") as cbase:
+        cal = calibrate(cbase)
+    if not any(v is None for (rel, _ek), v in cal.items() if rel in VALUELESS):
+        chk.machinery(f"calibration left no valueless relocation kind to judge: {cal}")
+    ms = members(chk.tier, cal)
     if chk.seed:
         import random
         random.Random(chk.seed).shuffle(ms)
     per_root = {rk: dict(members=0, reachable_sections_judged=0, members_where_gc_dropped_something=0)
                 for rk in ROOT_KINDS}
+    per_rel = {}
     nontrivial = 0
     judged = 0
     with vlib.scratch("c05") as base:
@@ -740,6 +787,9 @@ def main():
             m = ms[r["idx"]]
             st = r["stats"]
             pr = per_root[m["rk"]]
+            if "rel" in m:
+                pr = per_rel.setdefault(f"{m['rel']}/{m['ek']}", dict(
+                    members=0, reachable_sections_judged=0, members_where_gc_dropped_something=0))
             pr["members"] += 1
             pr["reachable_sections_judged"] += st.get("live", 0)
             judged += st.get("live", 0)
@@ -772,14 +822,19 @@ def main():
             for key, what in r["viol"]:
                 chk.violation(key, what, {"graphs": [[n, [list(e) for e in es]] for n, es in it[1]],
                                           "ek": it[2]})
-    for rk, pr in per_root.items():
+    for rk, pr in list(per_root.items()) + list(per_rel.items()):
         if pr["members"] and not pr["members_where_gc_dropped_something"]:
-            chk.machinery(f"root kind {rk}: garbage collection never dropped a section (vacuous)")
+            chk.machinery(f"root/relocation kind {rk}: garbage collection never dropped a section "
+                          f"(vacuous)")
     chk.coverage = {
         "evaluations": len(ms) + sum(len(i[1]) for i in items),
         "distinct_nontrivial": nontrivial,
         "rule": "members = union of the full products " +
-                "; ".join(f"[{name}]" for name, *_ in SUBFAMILIES[chk.tier]) +
+                "; ".join(f"[{name}]" for name, *_ in SUBFAMILIES[chk.tier] + REL_SUBFAMILIES[chk.tier]) +
+                " (relocation kinds: one relocation of that type per edge; valueless = kinds for which "
+                "wild's layout::resolution_flags is empty: " + ", ".join(VALUELESS) + "; a (kind, symbol "
+                "kind) pair is only a member when GNU ld (x86-64) and ld.lld with --gc-sections both "
+                "keep the target on a calibration graph)" +
                 " where g3 = all 512 edge sets on 3 sections incl. self-loops, g4 = all 4096 loop-free "
                 "edge sets on 4 sections; edge kind = relocation against named global / local symbol / "
                 "section symbol + offset; distinct_nontrivial = members whose closure has >= 2 sections and in which wild "
@@ -789,8 +844,14 @@ def main():
         "members": len(ms), "links": len(ms) + 2 * len(items),
         "reachable_sections_judged": judged,
         "per_root_kind": per_root,
+        "per_relocation_kind": per_rel,
+        "relocation_kinds_judged": sorted(f"{r}/{e}" for (r, e), v in cal.items() if v is None),
+        "relocation_kinds_excluded_by_calibration": {f"{r}/{e}": v for (r, e), v in cal.items()
+                                                     if v is not None},
+        "calibration_subprocesses": sum(2 if REL_KINDS[r][0] == "x86_64" else 1 for r, _e in cal),
         "native_programs": len(items), "native_graphs": sum(len(i[1]) for i in items),
-        "native_runs": n_runs, "subprocesses": n_runs,
+        "native_runs": n_runs,
+        "subprocesses": n_runs + sum(2 if REL_KINDS[r][0] == "x86_64" else 1 for r, _e in cal),
         "samples": [ms[0], ms[len(ms) // 2], ms[-1], label(ms[len(ms) // 3])],
         "exhaustive": True,
     }
@@ -799,6 +860,9 @@ def main():
         "R_AARCH64_ABS64 / R_AARCH64_PREL32); AArch64 outputs are only inspected statically",
         "sections outside the model's closure are not judged (they may be kept)",
         "the export-dynamic root kind is a PIE dynamically linked against a shared object",
+        "relocation-kind members are static non-PIE links with the entry root; AArch64 kinds are "
+        "calibrated against ld.lld only (GNU ld here is x86-64 only); instruction bytes around a "
+        "relocated field are valid encodings but the programs are never run",
     ]
     chk.finish()
 
